@@ -129,6 +129,16 @@ def _assigned_names(body):
         def visit_FunctionDef(self, n):
             names.add(n.name)
 
+        def visit_Call(self, n):
+            f = n.func
+            if isinstance(f, ast.Attribute) and isinstance(f.value, ast.Name) and \
+                    f.attr in ("append", "extend", "insert", "pop", "update", "add", "clear", "setdefault", "remove"):
+                names.add(f.value.id)
+            self.generic_visit(n)
+
+        def visit_With(self, n):
+            self.generic_visit(n)
+
         def visit_Lambda(self, n):
             pass
 
@@ -196,6 +206,30 @@ class Xform(ast.NodeTransformer):
         if isinstance(n.value, complex):
             return ast.copy_location(
                 ast.Call(ast.Name("__J__", ast.Load()), [ast.Constant(repr(n.value))], []), n)
+        return n
+
+    def visit_ListComp(self, n):
+        self.generic_visit(n)
+        if len(n.generators) == 1 and not n.generators[0].ifs and not n.generators[0].is_async:
+            g = n.generators[0]
+            lam = ast.Lambda(ast.arguments(posonlyargs=[], args=[ast.arg("__it")], kwonlyargs=[], kw_defaults=[], defaults=[]),
+                             ast.Subscript(ast.List([ast.NamedExpr(g.target, ast.Name("__it", ast.Load())), n.elt], ast.Load()),
+                                           ast.Constant(1), ast.Load())) \
+                if not isinstance(g.target, ast.Name) else \
+                ast.Lambda(ast.arguments(posonlyargs=[], args=[ast.arg(g.target.id)], kwonlyargs=[], kw_defaults=[], defaults=[]), n.elt)
+            if isinstance(g.target, ast.Name):
+                return ast.copy_location(ast.Call(ast.Name("__pyvc_map__", ast.Load()), [lam, g.iter], []), n)
+        return n
+
+    def visit_DictComp(self, n):
+        self.generic_visit(n)
+        if len(n.generators) == 1 and not n.generators[0].ifs:
+            g = n.generators[0]
+            if isinstance(g.target, ast.Tuple) and all(isinstance(e, ast.Name) for e in g.target.elts):
+                args = [ast.arg(e.id) for e in g.target.elts]
+                lam = ast.Lambda(ast.arguments(posonlyargs=[], args=args, kwonlyargs=[], kw_defaults=[], defaults=[]),
+                                 ast.Tuple([n.key, n.value], ast.Load()))
+                return ast.copy_location(ast.Call(ast.Name("__pyvc_dictcomp__", ast.Load()), [lam, g.iter], []), n)
         return n
 
     def visit_JoinedStr(self, n):
@@ -387,7 +421,9 @@ def _mkloop(label, k, iterable, pre_state):
 
 def base_namespace():
     from . import engine, sym
-    return {"__F__": sym.F, "__J__": sym.J, "__pyvc_snap__": snap,
+    from . import values
+    return {"__F__": sym.F, "__J__": sym.J, "__pyvc_snap__": snap, "__pyvc_map__": values.s_map,
+            "__pyvc_dictcomp__": values.s_dictcomp,
             "__pyvc_range__": engine.RangeIter, "__pyvc_seq__": engine.SeqIter,
             "__pyvc_loop__": _mkloop}
 
